@@ -70,13 +70,18 @@ def configs(rng, tier):
     # the raw value: both spellings must give plain text
     extra = [("TTS", "None"), ("TTS", "NONE"), ("TTS", "none"),
              ("CapitalLetters_UseWord", "false"), ("CapitalLetters_UseWord", "true"), ("SpeechOverrides_CapitalLetters", "cap"),
-             ("CapitalLetters_Pitch", "20"), ("CapitalLetters_Beep", "true"), ("SubjectArea", "General"), ("MathRate", "80"), ("PauseFactor", "200")]
+             ("CapitalLetters_Pitch", "20"), ("CapitalLetters_Beep", "true"), ("SubjectArea", "General"), ("MathRate", "80"), ("PauseFactor", "200"),
+             ("Bookmark", "true"), ("Bookmark", "True"), ("Pitch", "10"), ("Volume", "50"), ("Impairment", "LearningDisability"), ("Impairment", "LowVision")]
     for c in out:
         k, v = rng.choice(extra)
         c[k] = v
     # the engine preference in its documented spelling, once per language
     for lang in langs:
         out.append({"Language": lang, "SpeechStyle": "ClearSpeak", "Verbosity": "Medium", "TTS": rng.choice(["None", "NONE"])})
+    # every preference a speech engine would use, all at once, with no engine: still only words
+    for lang in (langs if tier != "quick" else rng.sample(langs, 3) + ["en"]):
+        out.append({"Language": lang, "SpeechStyle": rng.choice(["ClearSpeak", "SimpleSpeak"]), "Verbosity": "Medium", "Bookmark": "true", "CapitalLetters_Pitch": "30",
+                    "CapitalLetters_Beep": "true", "MathRate": "120", "PauseFactor": "150", "Pitch": "5"})
     if tier == "quick":
         keep = [c for c in out if c["Verbosity"] == "Medium"]
         rest = [c for c in out if c["Verbosity"] != "Medium"]
